@@ -18,7 +18,7 @@ class Unsupported(Exception):
 class Val:
     """A symbolic Python value: V-sorted term + declared shape + ownership."""
 
-    __slots__ = ("t", "ann", "own", "deep", "src", "unord")
+    __slots__ = ("t", "ann", "own", "deep", "src", "unord", "root")
 
     def __init__(self, t, ann=None, own="imm", deep=True, src=None):
         self.t = t
@@ -27,6 +27,7 @@ class Val:
         self.deep = deep        # for fresh containers: everything mutable reachable is fresh too
         self.src = src          # provenance (lvalue path) for write-through
         self.unord = False      # order of this sequence depends on set/dict iteration order
+        self.root = getattr(src[1], "root", None) if (src and isinstance(src[1], Val)) else None   # parameter this value is reachable from
 
     def __repr__(self):
         return f"Val({self.t}, ann={self.ann}, own={self.own})"
